@@ -291,7 +291,7 @@ def _run(ctx, thorough, procs, scratch):
             regen_note = info
     for prs in _G["parsers"].values():
         ir_expr.warm_up(prs, ir_expr.CONTEXTS if thorough else ("rhs",))
-    par.start(procs)
+    par.start(procs)       # fork before the corpora are loaded; the workers inherit the warmed-up parser automata
 
     import time
     t_start = time.time()
